@@ -69,3 +69,67 @@ fn int_cbor_roundtrip_boundaries() {
     };
     assert!(int_roundtrip_ok(v));
 }
+
+// ---- C01: encode -> decode round trips of small composite types through the REAL encoders and decoders -------------------
+fn ser<T: cbor_event::se::Serialize>(x: &T) -> Option<Vec<u8>> {
+    let mut se = cbor_event::se::Serializer::new_vec();
+    match x.serialize(&mut se) { Ok(_) => Some(se.finalize()), Err(_) => None }
+}
+fn de<T: crate::serialization::traits::Deserialize>(bytes: Vec<u8>) -> Option<T> {
+    let mut d = cbor_event::de::Deserializer::from(std::io::Cursor::new(bytes));
+    match T::deserialize(&mut d) { Ok(v) => Some(v), Err(_) => None }
+}
+
+/// ExUnits [mem, steps], UnitInterval #6.30([n, d]), ProtocolVersion [major, minor]: all field values
+#[kani::proof]
+#[kani::stub(alloc::fmt::format, stub_format)]
+#[kani::unwind(12)]
+fn roundtrip_small_structs() {
+    let a: u64 = kani::any();
+    let b: u64 = kani::any();
+    let which: u8 = kani::any();
+    kani::assume(which < 3);
+    if which == 0 {
+        let x = ExUnits::new(&BigNum(a), &BigNum(b));
+        match ser(&x) { Some(bytes) => match de::<ExUnits>(bytes) { Some(y) => { assert!(y.mem().0 == a && y.steps().0 == b); } None => { assert!(false); } }, None => { assert!(false); } }
+    } else if which == 1 {
+        let x = UnitInterval::new(&BigNum(a), &BigNum(b));
+        match ser(&x) { Some(bytes) => match de::<UnitInterval>(bytes) { Some(y) => { assert!(y.numerator().0 == a && y.denominator().0 == b); } None => { assert!(false); } }, None => { assert!(false); } }
+    } else {
+        let x = ProtocolVersion::new(a as u32, b as u32);
+        match ser(&x) { Some(bytes) => match de::<ProtocolVersion>(bytes) { Some(y) => { assert!(y.major() == a as u32 && y.minor() == b as u32); } None => { assert!(false); } }, None => { assert!(false); } }
+    }
+}
+
+/// TransactionInput [hash32, index]: all hashes, all u32 indices
+#[kani::proof]
+#[kani::stub(alloc::fmt::format, stub_format)]
+#[kani::unwind(40)]
+fn roundtrip_transaction_input() {
+    let h: [u8; 32] = kani::any();
+    let idx: u32 = kani::any();
+    let x = TransactionInput::new(&TransactionHash::from(h), idx);
+    match ser(&x) {
+        Some(bytes) => {
+            assert!(bytes.len() == 1 + 34 + (if idx <= 23 { 1 } else if idx < 0x100 { 2 } else if idx < 0x1_0000 { 3 } else { 5 }));
+            match de::<TransactionInput>(bytes) {
+                Some(y) => { assert!(y.index() == idx); let i: usize = kani::any(); kani::assume(i < 32); assert!(y.transaction_id().0[i] == h[i]); }
+                None => { assert!(false); }
+            }
+        }
+        None => { assert!(false); }
+    }
+}
+
+/// Value without assets: encodes as a bare coin and decodes back, all coins
+#[kani::proof]
+#[kani::stub(alloc::fmt::format, stub_format)]
+#[kani::unwind(12)]
+fn roundtrip_value_coin_only() {
+    let c: u64 = kani::any();
+    let v = Value::new(&BigNum(c));
+    match ser(&v) {
+        Some(bytes) => match de::<Value>(bytes) { Some(w) => { assert!(w.coin().0 == c && w.multiasset().is_none()); } None => { assert!(false); } },
+        None => { assert!(false); }
+    }
+}
